@@ -21,7 +21,7 @@ import sys
 
 VERIF = os.path.dirname(os.path.abspath(__file__))
 sys.path.insert(0, VERIF)
-DEFAULT_MODULES = ["iosim.c09", "iosim.c08", "iosim.c07", "iosim.c10", "irsim.c01_c06:C01", "irsim.c01_c06:C06", "irsim.c11", "irsim.c15", "irsim.c13", "irsim.c20", "irsim.c19", "irsim.c14"]
+DEFAULT_MODULES = ["iosim.c09", "iosim.c08", "iosim.c07", "iosim.c10", "irsim.c01_c06:C01", "irsim.c01_c06:C06", "irsim.c11", "irsim.c15", "irsim.c13", "irsim.c20", "irsim.c19", "irsim.c14", "irsim.c03", "iosim.c17"]
 
 
 def digests(mod_name: str, start: int, n: int, prop: str | None = None) -> list[str]:
